@@ -282,3 +282,15 @@ package roundrobin
 //@   requires r != nil
 //@   modifies r.requestRewriteListener
 //@   ensures set: r.requestRewriteListener == rrl && result == nil
+
+// ---- sticky-session objects: a new one speaks the raw-URL encoding under the given cookie name; SetCookieValue swaps the
+// encoding of this very object -----------------------------------------------------------------------------------------------
+//@ func NewStickySession
+//@   props C11
+//@   modifies nothing
+//@   ensures raw_encoding_under_the_name: result != nil && fresh(result) && result.cookieName == cookieName && istype(result.cookieValue, "*stickycookie.RawValue")
+//@ func (*StickySession).SetCookieValue
+//@   props C11
+//@   requires s != nil
+//@   modifies s.cookieValue
+//@   ensures encoding_replaced_in_place: s.cookieValue == value && result == s
